@@ -105,7 +105,7 @@ def main(ctx):
     pb = ctx.build("chunks")
     cases = os.path.join(ctx.scratch, "cases.ndjson")
     with open(cases, "wb") as f:
-        ctx.run([pb, "gen", "-states", sts, "-cuts", cutp, "-lits", litp, "-n", "300" if ctx.quick else "4000"]
+        ctx.run([pb, "gen", "-states", sts, "-cuts", cutp, "-lits", litp, "-n", "300" if ctx.quick else "12000"]
                 + ([] if ctx.quick else ["-thorough"]), stdout=f)
     ncases = sum(1 for _ in open(cases))
     nobs = 0
